@@ -520,6 +520,7 @@ func checkC03(w *World, r *Report) {
 	ruleNoListenerNoOutput(w, r, "C03")
 	ruleCursorUp(w, r, "C03")
 	ruleFlushReturnsErrors(w, r, "C03")
+	ruleWriterNew(w, r, "C03")
 	ruleSyncArm(w, r, "C03")
 	ruleRowsFit(w, r, "C03")
 	ruleTriggerCancels(w, r, "C03")
@@ -691,6 +692,7 @@ func checkC13(w *World, r *Report) {
 	ruleDelayWriter(w, r, "C13")
 	ruleCursorUp(w, r, "C13")
 	ruleFlushReturnsErrors(w, r, "C13")
+	ruleWriterNew(w, r, "C13")
 	ruleOptionTable(w, r, "C13", map[string][3]string{"WithOutput": {tPState, "output", "paramOrDefault"}, "WithRenderDelay": {tPState, "delayRC", "param"}})
 	ruleStateAgrees(w, r, "C13")
 	// rows are written only inside flush
